@@ -315,6 +315,41 @@ def body_spelling(ctx: H.BaseCtx):
                             ctx.fail("spelling", "%s raises %s: %s while numpoly.%s returns" % (label, type(e).__name__, str(e)[:60], fname))
                             continue
                         _same(ctx, ref, r2, label)
+            # special values (nan, inf, -0.0, magnitudes next to overflow): every spelling of one operation must still agree,
+            # bit for bit up to nan
+            from .. import special as SP
+
+            q0, q1 = numpoly.variable(2)
+            with numpy.errstate(all="ignore"):
+                for k, pair in enumerate(SP.PAIRS if case.get("special_values") else []):
+                    lo, hi = pair
+                    polys = [lo + hi * q0, numpoly.polynomial([lo, hi * q0]), hi * q0 * q1 + lo * q1 + 0.25, numpoly.polynomial([lo * q0 + hi, q1])]
+                    for pi, sp in enumerate(polys):
+                        groups = {
+                            "square": [("numpoly.power(p, 2)", lambda: numpoly.power(sp, 2)), ("p ** 2", lambda: sp ** 2), ("numpy.power(p, 2)", lambda: numpy.power(sp, 2)),
+                                       ("numpy.square(p)", lambda: numpy.square(sp)), ("numpoly.square(p)", lambda: numpoly.square(sp)), ("p * p", lambda: sp * sp), ("numpy.multiply(p, p)", lambda: numpy.multiply(sp, sp))],
+                            "double": [("numpoly.add(p, p)", lambda: numpoly.add(sp, sp)), ("p + p", lambda: sp + sp), ("numpy.add(p, p)", lambda: numpy.add(sp, sp))],
+                            "negate": [("numpoly.negative(p)", lambda: numpoly.negative(sp)), ("-p", lambda: -sp), ("numpy.negative(p)", lambda: numpy.negative(sp))],
+                            "scale": [("numpoly.multiply(p, 0.5)", lambda: numpoly.multiply(sp, 0.5)), ("p * 0.5", lambda: sp * 0.5), ("0.5 * p", lambda: 0.5 * sp), ("numpy.multiply(0.5, p)", lambda: numpy.multiply(0.5, sp))],
+                        }
+                        for gname, spellings in groups.items():
+                            ref = None
+                            for label, f in spellings:
+                                try:
+                                    r = f()
+                                except Exception as e:
+                                    ctx.fail("spelling", "%s raises %s on coefficients %s" % (label, type(e).__name__, pair))
+                                    continue
+                                t = SP.terms(r)
+                                if ref is None:
+                                    ref, ref_label = t, label
+                                    continue
+                                keys = set(ref) | set(t)
+                                for m in keys:
+                                    z = numpy.zeros(r.shape)
+                                    if not SP.same(ref.get(m, z), t.get(m, z)):
+                                        ctx.fail("spelling", "%s and %s differ on the polynomial %s: term %s is %s vs %s" % (ref_label, label, sp, m, numpy.asarray(ref.get(m, z)).tolist(), numpy.asarray(t.get(m, z)).tolist()))
+                                        break
         return
     # binary operators / comparisons: operator vs numpy.f vs numpoly.f
     a, b = ops[0], ops[1]
@@ -413,7 +448,7 @@ def gen_cases(tier: str, seed: int) -> List[Dict]:
     ]
     for src in ("c09", "c10"):
         mod = importlib.import_module("nv.checks." + src)
-        cs = mod.gen_cases(tier, seed)
+        cs = [c for c in mod.gen_cases(tier, seed) if c["fn"] != "special"]  # (the native special-value cases have their own driver)
         byfn: Dict[str, List[Dict]] = {}
         for c in cs:
             byfn.setdefault(c["fn"], []).append(c)
@@ -442,7 +477,7 @@ def gen_cases(tier: str, seed: int) -> List[Dict]:
         for names, exps in [(("q0",), [[0], [1]]), (("q0", "q1"), [[0, 0], [1, 1], [0, 2]])]:
             n += 1
             cases.append({"id": "C08-%03d-literal" % n, "op": "literal", "src": "literal", "operands": [S.make_poly_spec("a", names, exps, shape, rng, 2, zero_prob=0.0, literal_prob=0.3, mode="raw")],
-                          "ints": [1, 2] if quick else [1, 2, -3], "limits": lim})
+                          "ints": [1, 2] if quick else [1, 2, -3], "special_values": shape == () and len(names) == 1, "limits": lim})
     return cases
 
 
